@@ -112,7 +112,7 @@ def run_cell(cell, seed):
             yl, yh = make_pyramid(cell, kind, seed, lo, det)
         m = max([float(yl.abs().max())] + [float(h.abs().max()) for h in yh])
         tol = 1e-11 * G * max(m, 1e-300)
-        ok, y = util.call_lib(inv, (yl, yh))
+        ok, y = util.call_lib_eval(inv, (yl, yh)) if kind == 'tiny' else util.call_lib(inv, (yl, yh))     # one class in eval() mode
         try:
             ref = refs.dtcwt_inv(util.np64(yl), [c03.to_complex(h) for h in yh], cell['biort'], cell['qshift'])
         except Exception as e:
